@@ -10,6 +10,9 @@ schema is loaded.  Documents stay well-formed XML.
 import collections
 import copy
 import io
+import os
+import shutil
+import tempfile
 import xml.etree.ElementTree as ET
 
 from zcv import gen, loadcheck, refload
@@ -647,8 +650,100 @@ def load(xml):
         return ("other", type(e).__name__ + ": " + str(e)[:150])
 
 
-def check_doc(xml, expect_valid, label=""):
-    r = load(xml)
+TYPE_TAGS = ("sectiontype", "abstracttype")
+
+
+PKG = "zcvc10pkg"
+
+
+def split(root, mode):
+    """The same definitions as two documents: the type definitions move to a second document
+    that the schema imports -- a schema document named by relative 'src', or the component.xml
+    of a package.  -> (schema element, second element)"""
+    schema = copy.deepcopy(root)
+    comp = ET.Element("schema" if mode == "src" else "component")
+    if root.get("prefix") is not None:
+        comp.set("prefix", root.get("prefix"))
+    comp.text = root.text
+    where = None
+    for k, child in enumerate(list(schema)):
+        if child.tag in TYPE_TAGS:
+            if where is None:
+                where = list(schema).index(child)
+            schema.remove(child)
+            comp.append(child)
+    if where is None:
+        return None
+    imp = ET.Element("import", src="zcv-comp.xml") if mode == "src" else ET.Element("import", package=PKG)
+    imp.tail = "\n"
+    schema.insert(where, imp)
+    return schema, comp
+
+
+def component_edits():
+    """Things a component document may not contain (docs/writing-schema.rst: a component holds
+    type definitions only)."""
+    out = []
+    for tag, attrs in (("key", {"name": "topkey"}), ("multikey", {"name": "topmulti", "attribute": "topmulti"}),
+                       ("section", {"name": "topsection", "type": None}), ("multisection", {"name": "*", "attribute": "topsections", "type": None})):
+        def f(comp, tag=tag, attrs=attrs):
+            a = dict(attrs)
+            if "type" in a:
+                sts = comp.findall("sectiontype")
+                if not sts:
+                    raise LookupError
+                a["type"] = sts[0].get("name")
+            comp.append(ET.Element(tag, **a))
+        out.append(("R11:%s-at-top-of-component" % tag, f))
+
+    def f(comp):
+        comp.tag = "schema" if comp.tag == "component" else "component"
+    out.append(("R13:schema-imported-as-component-or-component-as-schema", f))
+
+    def f(comp):
+        comp.tail = None
+        comp.text = " stray "
+    out.append(("R12:stray-text-in-component", f))
+    return out
+
+
+def _cleanup(d, pid):
+    if os.getpid() == pid:
+        shutil.rmtree(d, True)
+
+
+def load_split(schema_xml, comp_xml):
+    ZConfig = loadcheck.zc()
+    import ZConfig.loader
+    d = _SHARED.get(("dir", os.getpid()))
+    if d is None or not os.path.isdir(d):
+        import sys
+        if _SHARED.get("dir") in sys.path:
+            sys.path.remove(_SHARED["dir"])        # a forked parent's directory
+            sys.modules.pop(PKG, None)
+        d = _SHARED["dir"] = _SHARED[("dir", os.getpid())] = tempfile.mkdtemp(prefix="zcv-c10-")
+        import atexit
+        atexit.register(_cleanup, d, os.getpid())
+        os.mkdir(os.path.join(d, PKG))
+        with open(os.path.join(d, PKG, "__init__.py"), "w") as f:
+            f.write("")
+        sys.path.insert(0, d)
+    with open(os.path.join(d, "zcv-schema.xml"), "w", encoding="utf-8") as f:
+        f.write(schema_xml)
+    for target in (os.path.join(d, "zcv-comp.xml"), os.path.join(d, PKG, "component.xml")):
+        with open(target, "w", encoding="utf-8") as f:
+            f.write(comp_xml)
+    try:
+        ZConfig.loader.SchemaLoader().loadURL(os.path.join(d, "zcv-schema.xml"))
+        return "ok"
+    except ZConfig.SchemaError:
+        return "schema-error"
+    except Exception as e:  # noqa
+        return ("other", type(e).__name__ + ": " + str(e)[:150])
+
+
+def check_doc(xml, expect_valid, label="", comp=None):
+    r = load(xml) if comp is None else load_split(xml, comp)
     if expect_valid:
         if r == "ok":
             return []
@@ -666,7 +761,7 @@ def evaluate(case):
         g = optprobe.verdicts([{"xml": case["xml"], "text": None}], "-O")[0]
         w = "schema-ok" if case.get("valid") else "schema-error"
         return [] if g == w else [failure("verdict-under-python-O:%s-instead-of-%s" % (g.split(":")[0], w), case, "")]
-    fl = check_doc(case["xml"], case.get("valid", False), case.get("edit", ""))
+    fl = check_doc(case["xml"], case.get("valid", False), case.get("edit", ""), case.get("comp"))
     return [failure(sig, case, d) for sig, d in fl]
 
 
@@ -774,6 +869,46 @@ def run_shard(spec):
                     res.sample({"edit": label, "xml": x2})
             for sig, d in check_doc(x2, False, label):
                 res.fail(sig, {"xml": x2, "valid": False, "edit": label}, d)
+        # the same definitions in two documents: the types in a component the schema imports
+        mode = ("src", "package")[(i // 5) % 2]
+        parts = split(root, mode) if i % 5 == 0 else None
+        if parts is not None:
+            sx, cx = render(parts[0]), render(parts[1])
+            res.evaluations += 1
+            counters["valid-split-documents:" + mode] += 1
+            fl2 = [(sig + ":types-in-component", d) for sig, d in check_doc(sx, True, "", cx)]
+            for sig, d in fl2:
+                res.fail(sig, {"xml": sx, "comp": cx, "valid": True}, d)
+            if not fl2:
+                for label, depth, fn in chosen:
+                    r2 = copy.deepcopy(root)
+                    try:
+                        fn(r2)
+                        p2 = split(r2, mode)
+                    except Exception:  # noqa
+                        continue
+                    # only edits whose whole effect lies in the type definitions
+                    if p2 is None or render(p2[0]) != sx or render(p2[1]) == cx:
+                        continue
+                    res.evaluations += 1
+                    counters["split-edit:" + label.split(":")[0]] += 1
+                    res.nontrivial(key=render(p2[1]))
+                    for sig, d in check_doc(sx, False, label, render(p2[1])):
+                        res.fail(sig + ":in-component", {"xml": sx, "comp": render(p2[1]), "valid": False, "edit": label}, d)
+                for label, fn in component_edits():
+                    c2 = copy.deepcopy(parts[1])
+                    try:
+                        fn(c2)
+                    except LookupError:
+                        continue
+                    if mode == "src" and not label.startswith("R13"):
+                        # an imported schema document may have items of its own (they are not imported)
+                        continue
+                    res.evaluations += 1
+                    counters["component-edit:" + label] += 1
+                    res.nontrivial(key=render(c2))
+                    for sig, d in check_doc(sx, False, label, render(c2)):
+                        res.fail(sig, {"xml": sx, "comp": render(c2), "valid": False, "edit": label}, d)
         # pairs of edits
         for _ in range(3):
             if len(es) < 2:
